@@ -176,7 +176,7 @@ func graphWritersRule(r *Report, p *Prog, e *Effect, rule string, roots []*ssa.F
 func checkC06(r *Report) {
 	p := loadResolve("", true)
 	pathTrusted(r)
-	r.Explain = "Path rules on the SSA control-flow graph of the npm resolver. C06.a LOOP-ACCOUNT: in the loop that asks the client for matching versions of each requirement, every path through one iteration ends in (*Graph).AddEdge, (*Graph).AddError or a return, so each non-dev, non-peer requirement becomes an edge, a node error, or aborts the resolution. C06.b PAIR: each (*Graph).AddNode in that loop is followed on every continuing path by an AddEdge whose target is the id just created; C06.c GRAPH-WRITERS: nothing reachable from Resolve writes Graph.Nodes/Edges except Graph's own append-only Add* methods; with the root as base case every node is reachable from the root by induction on insertion order. C06.d KNOWN-EMPTY-KEY (deny-list): no slot/alias table of the npm resolver is looked up with a variable on a branch where that variable is known to be the empty string (such a lookup can never hit, so a reservation that protects Node's walk-up lookup would be silently ignored). C06.f CLIMB-RESERVES: in the two loops of Resolve that walk up the install tree (p = p.parent), the slot reserved against shadowing (protected / aliasProtected) is that of the level being left, i.e. the map updated belongs to the loop variable itself and not to its parent; otherwise the dependent's own level stays unreserved and a later install can shadow the version its edge points to. C06.e DEV-INERT: in regularImports (the filter that decides which requirements of a version enter that loop) a dev requirement is never emitted, so it must not influence what is emitted either: every write to the filter's suppression tables and every append to its result happens on the not-dev side of a HasAttr(dep.Dev) test of the same iteration; otherwise a dev entry could suppress a regular requirement that then gets neither an edge nor an error. Not decided: that the edge target satisfies the requirement, version choice, and the hoisting/shadowing logic as a whole."
+	r.Explain = "Path rules on the SSA control-flow graph of the npm resolver. C06.a LOOP-ACCOUNT: in the loop that asks the client for matching versions of each requirement, every path through one iteration ends in (*Graph).AddEdge, (*Graph).AddError or a return, so each non-dev, non-peer requirement becomes an edge, a node error, or aborts the resolution. C06.b PAIR: each (*Graph).AddNode in that loop is followed on every continuing path by an AddEdge whose target is the id just created; C06.c GRAPH-WRITERS: nothing reachable from Resolve writes Graph.Nodes/Edges except Graph's own append-only Add* methods; with the root as base case every node is reachable from the root by induction on insertion order. C06.d KNOWN-EMPTY-KEY (deny-list): no slot/alias table of the npm resolver is looked up with a variable on a branch where that variable is known to be the empty string (such a lookup can never hit, so a reservation that protects Node's walk-up lookup would be silently ignored). C06.g SLOT-FREE: a freshly installed node is written into a level's children/alias table only where that level was tested to hold no package of that name: the level is the variable of the climbing loop, and each value that flows into it (the dependent's own level at loop entry, the parent at each step) is the argument of a candidate(level, name, alias) call whose non-nil outcome leaves the path, so no directory ends up with two packages of one name. C06.f CLIMB-RESERVES: in the two loops of Resolve that walk up the install tree (p = p.parent), the slot reserved against shadowing (protected / aliasProtected) is that of the level being left, i.e. the map updated belongs to the loop variable itself and not to its parent; otherwise the dependent's own level stays unreserved and a later install can shadow the version its edge points to. C06.e DEV-INERT: in regularImports (the filter that decides which requirements of a version enter that loop) a dev requirement is never emitted, so it must not influence what is emitted either: every write to the filter's suppression tables and every append to its result happens on the not-dev side of a HasAttr(dep.Dev) test of the same iteration; otherwise a dev entry could suppress a regular requirement that then gets neither an edge nor an error. Not decided: that the edge target satisfies the requirement, version choice, and the hoisting/shadowing logic as a whole."
 	fn := p.lookupFn("(*resolve/npm.resolver).Resolve")
 	if fn == nil {
 		r.bad("C06.a/LOOP-ACCOUNT", "npm Resolve", "", "function (*resolve/npm.resolver).Resolve not found")
@@ -195,6 +195,7 @@ func checkC06(r *Report) {
 	knownEmptyKeyRule(r, p, "C06.d/KNOWN-EMPTY-KEY", "resolve/npm")
 	devInertRule(r, p, "C06.e/DEV-INERT")
 	climbReservesRule(r, p, "C06.f/CLIMB-RESERVES", fn)
+	slotFreeRule(r, p, "C06.g/SLOT-FREE", fn)
 	r.Stats["loop_blocks"] = len(l.body)
 }
 
@@ -694,4 +695,104 @@ func climbReservesRule(r *Report, p *Prog, rule string, fn *ssa.Function) {
 		}
 	}
 	r.floor(rule, "reservations of protected/aliasProtected slots in Resolve", n, 3)
+}
+
+// slotFreeRule: see checkC06 (C06.g).
+func slotFreeRule(r *Report, p *Prog, rule string, fn *ssa.Function) {
+	fieldName := func(fa *ssa.FieldAddr) string {
+		return fa.X.Type().Underlying().(*types.Pointer).Elem().Underlying().(*types.Struct).Field(fa.Field).Name()
+	}
+	// same level: identical value, or two loads of the same field of the same base
+	var same func(a, b ssa.Value) bool
+	same = func(a, b ssa.Value) bool {
+		if a == b {
+			return true
+		}
+		ua, ok1 := a.(*ssa.UnOp)
+		ub, ok2 := b.(*ssa.UnOp)
+		if ok1 && ok2 && ua.Op == token.MUL && ub.Op == token.MUL {
+			fa, ok1 := ua.X.(*ssa.FieldAddr)
+			fb, ok2 := ub.X.(*ssa.FieldAddr)
+			return ok1 && ok2 && fa.Field == fb.Field && same(fa.X, fb.X)
+		}
+		return false
+	}
+	// testedFree: at the end of block at, level v is known to hold no candidate
+	testedFree := func(v ssa.Value, at, to *ssa.BasicBlock) bool {
+		for _, g := range fn.Blocks {
+			ifi, ok := g.Instrs[len(g.Instrs)-1].(*ssa.If)
+			if !ok {
+				continue
+			}
+			bo, ok := ifi.Cond.(*ssa.BinOp)
+			if !ok || (bo.Op != token.NEQ && bo.Op != token.EQL) {
+				continue
+			}
+			c, ok := bo.Y.(*ssa.Const)
+			if !ok || c.Value != nil {
+				continue
+			}
+			ex, ok := bo.X.(*ssa.Extract)
+			if !ok || ex.Index != 0 {
+				continue
+			}
+			call, ok := ex.Tuple.(*ssa.Call)
+			if !ok || staticCalleeName(call) != "(*resolve/npm.resolver).candidate" || len(call.Call.Args) < 2 || !same(call.Call.Args[1], v) {
+				continue
+			}
+			occupied := g.Succs[0]
+			if bo.Op == token.EQL {
+				occupied = g.Succs[1]
+			}
+			if g == at {
+				// the test block itself is the predecessor: the edge taken must be the free one
+				if to != nil && to != occupied && (g.Succs[0] == to || g.Succs[1] == to) {
+					return true
+				}
+				continue
+			}
+			if g.Dominates(at) && !reaches(occupied, at, g) {
+				return true
+			}
+		}
+		return false
+	}
+	n := 0
+	seen := map[string]int{}
+	for _, b := range fn.Blocks {
+		for _, in := range b.Instrs {
+			mu, ok := in.(*ssa.MapUpdate)
+			if !ok {
+				continue
+			}
+			ld, ok := mu.Map.(*ssa.UnOp)
+			if !ok {
+				continue
+			}
+			fa, ok := ld.X.(*ssa.FieldAddr)
+			if !ok || (fieldName(fa) != "children" && fieldName(fa) != "alias") || !strings.HasSuffix(fa.X.Type().String(), "npm.treeNode") {
+				continue
+			}
+			n++
+			seen[fieldName(fa)]++
+			key := fmt.Sprintf("%s: install into %s #%d", fnKey(fn), fieldName(fa), seen[fieldName(fa)])
+			level := fa.X
+			var untested []string
+			if phi, ok := level.(*ssa.Phi); ok {
+				for i, e := range phi.Edges {
+					if !testedFree(e, phi.Block().Preds[i], phi.Block()) {
+						untested = append(untested, fmt.Sprintf("the value arriving from %s", blockPos(p, phi.Block().Preds[i])))
+					}
+				}
+			} else if !testedFree(level, b, nil) {
+				untested = append(untested, "the level itself")
+			}
+			if len(untested) == 0 {
+				r.ok(rule, key, p.pos(mu.Pos()), "every level that can reach this install was tested with candidate() and found free")
+			} else {
+				r.bad(rule, key, p.pos(mu.Pos()), "a package is installed into a level that was not tested to be free of a package of that name ("+strings.Join(untested, "; ")+"): the directory can end up holding two packages of one name (one overwriting or shadowing the other), and the requirement is no longer reported as an error")
+			}
+		}
+	}
+	r.floor(rule, "installs into children/alias tables in Resolve", n, 2)
 }
